@@ -461,6 +461,7 @@ fn probe(site: u32, arg: u64) {
                 }
                 s.event(task, "cancel_timer");
             });
+            sched_point();
         }
         vp::CANCEL_RESULT => {
             SIM.with(|s| {
@@ -486,6 +487,9 @@ fn probe(site: u32, arg: u64) {
                     s.in_call = Some((cid, Phase::AfterCancel));
                 }
             });
+            // between the return of cancel() and what cancel_timer does next (the end of the
+            // generation): a thunk in flight may run exactly here
+            sched_point();
         }
         _ => {}
     }
